@@ -196,8 +196,10 @@ func (c *TCPConn) Write(b []byte) (int, error) {
 			return written, opErr("write", "tcp", c.LocalAddr(), c.RemoteAddr(), sysErr("write", syscall.ECONNRESET))
 		}
 		if c.peer.closed {
-			// The peer is gone: the kernel accepts the bytes, the answer is a reset.
-			c.in.rst = true
+			// The peer is gone: the kernel accepts the bytes, the answer is a reset — which
+			// arrives after whatever the peer had sent before it closed.
+			h := c.in
+			c.peer.deliver(h, func() { h.rst = true })
 			s.Poke()
 			return len(b), nil
 		}
